@@ -1328,6 +1328,11 @@ mmx_rule_convssslw (OrcCompiler *p, void *user, OrcInstruction *insn)
   const int src = p->vars[insn->src_args[0]].alloc;
   const int dest = p->vars[insn->dest_args[0]].alloc;
 
+  /* packssdw packs dest (low half) and src (high half): dest has to hold
+   * the source, which it only does when the allocator chained it */
+  if (src != dest) {
+    orc_mmx_emit_movq (p, src, dest);
+  }
   orc_mmx_emit_packssdw (p, src, dest);
 }
 
@@ -1338,6 +1343,9 @@ mmx_rule_convsuslw (OrcCompiler *p, void *user, OrcInstruction *insn)
   const int src = p->vars[insn->src_args[0]].alloc;
   const int dest = p->vars[insn->dest_args[0]].alloc;
 
+  if (src != dest) {
+    orc_mmx_emit_movq (p, src, dest);
+  }
   orc_mmx_emit_packusdw (p, src, dest);
 }
 #endif
@@ -1351,6 +1359,9 @@ mmx_rule_convslq (OrcCompiler *p, void *user, OrcInstruction *insn)
 
   orc_mmx_emit_movq (p, src, tmp);
   orc_mmx_emit_psrad_imm (p, 31, tmp);
+  if (src != dest) {
+    orc_mmx_emit_movq (p, src, dest);
+  }
   orc_mmx_emit_punpckldq (p, tmp, dest);
 }
 
